@@ -10,7 +10,7 @@ cp -r "$here/f0" "$tmp/f0"
 for f in F0s Specs P1 P2 P3g P5 P6 P7 P8 P9 P10 P11 Canon P12 P13 Canonize P14 P15 P16a P16 P17 P18; do run "$tmp/f0" coqc -Q . F0 $f.v; done
 echo "f0: ok"
 cp -r "$here/edit" "$tmp/edit"
-for f in EditModel EditRun EditProofs EditFrame EditLaws EditParse EditFindings EditAppend EditClosed; do run "$tmp/edit" coqc -Q . E $f.v; done
+for f in EditModel EditRun EditProofs EditFrame EditLaws EditParse EditFindings EditAppend EditClosed EditClosedOps; do run "$tmp/edit" coqc -Q . E $f.v; done
 echo "edit: ok"
 cp -r "$here/py2v" "$tmp/py2v"
 for f in Gen NixLex Refine NPathProofs SplitProofs ScopeSel; do run "$tmp/py2v" coqc $f.v; done
